@@ -45,7 +45,7 @@ pub mod cypher14;
 pub mod extid;
 pub mod capi;
 pub mod capix;
-pub mod crash;
+pub mod hostcrash;
 
 pub fn all() -> Vec<StreamDef> {
     vec![
@@ -80,7 +80,7 @@ pub fn all() -> Vec<StreamDef> {
         capi::def(),
         capi::def_ryw(),
         capix::def(),
-        crash::def(),
+        hostcrash::def(),
     ]
 }
 
